@@ -267,7 +267,7 @@ def mc_jobs(quick: bool):
     jobs.append(("w8-3segs-share", mc_cfg(8, [[1, 255, 16, 40]], [0, 2, 4, 6], [2], [0, 2], [0, 2], 3, True)))
     if not quick:
         jobs.append(("w8-3segs", mc_cfg(8, [[1, 255, 16, 40]], [0, 2, 6], [2, 4], [0, 2], [0, 2], 3, True)))
-        jobs.append(("w16-wide", mc_cfg(16, [[513, 65535, 4096, 32, 7, 9], []], [0, 2, 3, 4094, 4096, 65534, 1 << 40], [0, 2, 4, 5, 1002], [0, 2, 4], [0, 1, 2, 4], 2, True)))
+        jobs.append(("w16-wide", mc_cfg(16, [[513, 65535, 4096, 32, 7, 9], []], [0, 2, 3, 4096, 65534, 1 << 40], [0, 2, 5, 1002], [0, 1, 4], [0, 1, 2, 4], 2, True)))
     return jobs
 
 
